@@ -33,8 +33,9 @@ def gen(rng, tier):
             continue
         m = G.gen_matrix(rng, nmax=nmax)
         n = len(m["rows"])
+        dt = G.typed(m, rng)          # integer / unsigned / single-precision containers (the field vector stays fractional)
         yield dict(mode="square", r=n, c=n, M=[[fs(x) for x in row] for row in m["rows"]], const=fs(G.q(rng)),
-                   kind=rng.choice(G.KINDS), h=[fs(G.q(rng)) for _ in range(n)], cls=m["cls"])
+                   kind=rng.choice(G.KINDS), h=[fs(G.q(rng)) for _ in range(n)], cls=m["cls"], dtype=dt)
 
 
 def shrink(case):
@@ -63,11 +64,11 @@ def run_case(case, drv):
     const = F(case["const"])
     h = [F(x) for x in case["h"]]
     kind = case["kind"]
-    res.features += [f"kind:{kind}", f"class:{case.get('cls')}", f"n:{r}", f"mode:{case['mode']}"]
+    res.features += [f"dtype:{case.get('dtype', 'float64')}", f"kind:{kind}", f"class:{case.get('cls')}", f"n:{r}", f"mode:{case['mode']}"]
     res.nontrivial = case["mode"] == "square" and r >= 2 and any(M[i][j] != 0 for i in range(r) for j in range(c) if i != j)
 
     # ---------------- QUBO -> Ising
-    Qobj = G.to_container(M, kind)
+    Qobj = G.to_container(M, kind, dtype=case.get("dtype"))
     before = G.snapshot(Qobj)
     try:
         J, hh, cc = qt.QUBO_to_Ising(Qobj, float(const))
@@ -118,7 +119,7 @@ def run_case(case, drv):
 
     if case["mode"] == "nonsquare":
         # Ising_to_QUBO must reject as well
-        Jobj = G.to_container(M, kind)
+        Jobj = G.to_container(M, kind, dtype=case.get("dtype"))
         try:
             qt.Ising_to_QUBO(Jobj, np.array([float(x) for x in h]), float(const))
             res.fail("i2q:nonsquare-accepted", f"Ising_to_QUBO accepted a {r}x{c} matrix")
@@ -131,7 +132,7 @@ def run_case(case, drv):
     # ---------------- a linear-term vector of the wrong length is rejected (model and code)
     for hbad in (list(h)[:-1], list(h) + [Fraction(1)]):
         try:
-            qt.Ising_to_QUBO(G.to_container(M, kind), np.array([float(x) for x in hbad]), float(const))
+            qt.Ising_to_QUBO(G.to_container(M, kind, dtype=case.get("dtype")), np.array([float(x) for x in hbad]), float(const))
             impl_bad = "ok"
         except ValueError:
             impl_bad = "err:value"
@@ -143,7 +144,7 @@ def run_case(case, drv):
         if impl_bad == "ok":
             res.fail("i2q:length-mismatch-accepted", f"Ising_to_QUBO accepted h of length {len(hbad)} for a {r}x{r} matrix")
     # ---------------- Ising -> QUBO (couplings = M with its diagonal)
-    Jobj = G.to_container(M, kind)
+    Jobj = G.to_container(M, kind, dtype=case.get("dtype"))
     hobj = np.array([float(x) for x in h])
     bJ, bh = G.snapshot(Jobj), G.snapshot(hobj)
     try:
@@ -211,7 +212,7 @@ def run_case(case, drv):
             break
     # the evaluators on the caller's own container (every accepted kind, every size from 1 x 1)
     if r <= 6:
-        Cq = G.to_container(M, kind)
+        Cq = G.to_container(M, kind, dtype=case.get("dtype"))
         for x in list(G.all_binary(r))[:16]:
             want_q = G.quad_fr(M, x) + const
             sx = [1 - 2 * t for t in x]
